@@ -69,10 +69,10 @@ type tierCfg struct {
 // wall-clock limit of each worker.
 var tiers = map[string]map[string]tierCfg{
 	"C09": {"quick": {48, 60}, "thorough": {4800, 1500}},
-	"C08": {"quick": {2400, 50}, "thorough": {400000, 1500}},
-	"C10": {"quick": {1600, 50}, "thorough": {400000, 1200}},
+	"C08": {"quick": {2400, 50}, "thorough": {5000000, 1500}},
+	"C10": {"quick": {1600, 50}, "thorough": {8000000, 1200}},
 	"C06": {"quick": {46000, 50}, "thorough": {20000000, 1200}},
-	"C19": {"quick": {2400, 50}, "thorough": {300000, 1200}},
+	"C19": {"quick": {2400, 50}, "thorough": {5000000, 1200}},
 }
 
 var levels = map[string]string{"C06": "fault_enumeration", "C08": "exploration", "C09": "fault_enumeration", "C10": "exploration", "C19": "exploration"}
